@@ -22,6 +22,7 @@ def run(chk):
     x4(chk, prog, depths[0])
     x7(chk, prog, depths[0])
     x8(chk, prog, depths[0])
+    x9_comment_at_end(chk, prog, depths[0])
     from .. import numrules
     numrules.rule_strict_numbers(chk, prog, "C16.X6")
     numrules.rule_trailing_after_number(chk, prog, "C16.X8n")
@@ -116,6 +117,53 @@ def default_accepts(chk, prog, D):
                         "default mode rejects %s at position %s: text %r gives %s" % (KIND_NAMES.get(k, k), pos, w, T.err_name.get(c["err"], c["err"])),
                         {"witness_text": w})
     chk.floor(rid + ".d%d" % D, n, 20, "(extension kind, grammar position) groups in default mode")
+
+
+def x9_comment_at_end(chk, prog, D):
+    rid = "C16.X9"
+    chk.rule(rid, "in default mode a '//' comment that runs to the end of a NUL-terminated text is value-neutral at the end of the "
+                  "text too: from every reachable configuration whose current level is inside such a comment, the step on the "
+                  "terminating NUL ends with the same status and value presence as the step on the terminating NUL from the "
+                  "configuration the comment was entered from")
+    T = tokauto.get_table(prog, 0, D)
+    eol = [v for v, k in T.state_name.items() if k == "comment_eol"]
+    chk.require(eol, "state comment_eol not found")
+    eol = eol[0]
+    ws = [v for v, k in T.state_name.items() if k == "eatws"]
+    chk.require(ws, "state eatws not found")
+    ws = ws[0]
+
+    def nul(cfg):
+        return frozenset((o.err, bool(o.ret_nonnull)) for o in T.step(cfg, byte_domain=[0], length=-1))
+    n = 0
+    bad = None
+    for cfg in T.trans:
+        depth, levels = cfg[0], cfg[1]
+        top = levels[depth]
+        if top[0] != eol:
+            continue
+        # a comment is entered from the white-space state and returns to it, keeping the saved state: that configuration is
+        # the origin (it is walked here even where the one-byte-per-call exploration did not visit it)
+        origins = [(depth, levels[:depth] + ((ws, top[1]) + tuple(top[2:]),) + levels[depth + 1:]) + tuple(cfg[2:])]
+        n += 1
+        here = nul(cfg)
+        if all(nul(c) != here for c in origins) and bad is None:
+            bad = (cfg, origins[0], here, nul(origins[0]))
+    sig = "'//' comment ended by the end of the text"
+    if bad:
+        cfg, org, a, b = bad
+
+        def show(x):
+            return sorted("%s%s" % (T.err_name.get(e, e), " with a value" if v else "") for e, v in x)
+        chk.refuted(rid, "json_tokener_parse_ex", sig, "json_tokener.c",
+                    "configuration %s (inside a '//' comment entered from %s): the terminating NUL gives %s, but from the "
+                    "configuration before the comment it gives %s: a document followed by '// text' without a final newline "
+                    "is not treated like the document" % (T.cfg_str(cfg), T.cfg_str(org), show(a), show(b)))
+    elif n == 0:
+        chk.undecided(rid, "json_tokener_parse_ex", sig, "json_tokener.c", "no configuration inside a '//' comment with a known origin was reached")
+    else:
+        chk.proven(rid, "json_tokener_parse_ex", sig, "json_tokener.c", "%d configurations inside a '//' comment end like their origin on the terminating NUL" % n)
+    chk.floor(rid, n, 3, "configurations inside a '//' comment")
 
 
 def x4(chk, prog, D):
